@@ -1,6 +1,7 @@
 (* C06 -- reextent keeps the common part; clear, reshape and assign do what they say.  Model: Model/Life.v.
    This file holds only the property theorems, each closed by `exact`, with Print Assumptions. *)
-From BM Require Import Base.Tactics Model.Life Proofs.LifeMonad Proofs.LifeInv Proofs.LifeOps Proofs.LifeMain Proofs.LifeFacts Proofs.LifeRefSpec.
+From BM Require Import Base.Tactics Model.Life Proofs.LifeMonad Proofs.LifeInv Proofs.LifeOps Proofs.LifeMain Proofs.LifeFacts Proofs.LifeRefSpec
+  Proofs.LifeVal4 Proofs.LifeVal10.
 Local Open Scope Z_scope.
 
 (* every history containing reextent (three overloads, any old and new extensions, any rank >= 1, index bases, empty and
@@ -39,11 +40,65 @@ Print Assumptions C06_reshape_flat.
 
 (* On the reference interpreter over values (Model/Life.v: vstep (OReextent ..) uses reext_vals): for ANY old and new
    extensions (any rank, index bases, empty ones) the element at an index tuple of the new extensions is the old element when
-   the tuple also lies in the old extensions, and the fill / default value otherwise.  (The machine is compared with this
-   interpreter on every generated history by the check; that refinement is tested, not proved.) *)
+   the tuple also lies in the old extensions, and the fill / default value otherwise.  (C06_reextent_spec below composes this with the proved refinement of the machine.) *)
 Theorem C06_reextent_reference_spec :
   forall oldx oldv newx dflt idx, in_bx newx idx = true ->
     nth (Z.to_nat (rowmajor newx idx)) (reext_vals oldx oldv newx dflt) dflt =
     if in_bx oldx idx then nth (Z.to_nat (rowmajor oldx idx)) oldv dflt else dflt.
 Proof. exact reext_vals_spec. Qed.
 Print Assumptions C06_reextent_reference_spec.
+
+(* ---- on the MACHINE (refinement of Properties_C04.C04_operation_refines composed with the reference spec) ---- *)
+(* reextent(x) / reextent(x, v), lvalue overloads, any old and new extensions: the array reports the collapsed new
+   extensions; an index tuple of the new extensions that also lies in the old ones keeps its value; every other one reads
+   the fill value, or the value-initialised element (dflt_val: 0, or the allocator's paint when the element type is
+   trivially default constructible and nothing is written) *)
+Theorem C06_reextent_spec :
+  forall cfg, (1 <= c_rank cfg)%nat -> forall r x fv s s', Good cfg s -> pool_ok cfg (abs_state s) ->
+    dom_op cfg (s_arrs s) (OReextent r x fv) -> val_dom cfg (OReextent r x fv) ->
+    step cfg (OReextent r x fv) s = Ok tt s' ->
+    bx_eq x (fst (vget (abs_state s) r)) = false ->
+    let d := match fv with Some v => v | None => dflt_val cfg end in
+    fst (vget (abs_state s') r) = norm_bx x /\
+    forall idx, in_bx (norm_bx x) idx = true ->
+      nth (Z.to_nat (rowmajor (norm_bx x) idx)) (snd (vget (abs_state s') r)) d =
+      if in_bx (fst (vget (abs_state s) r)) idx
+      then nth (Z.to_nat (rowmajor (fst (vget (abs_state s) r)) idx)) (snd (vget (abs_state s) r)) d else d.
+Proof. exact reextent_spec. Qed.
+Print Assumptions C06_reextent_spec.
+
+(* the value-initialisation clause, by the trait the code must branch on: every element type that is NOT trivially
+   default constructible gets value-initialised new elements (0), whatever its destructor and copy operations are
+   (c_tdx, c_quiet are not constrained: struct{int v = 0;} as well as the tracked class) *)
+Theorem C06_reextent_new_elements_value_initialised :
+  forall cfg, (1 <= c_rank cfg)%nat -> forall r x s s' idx, c_tdc cfg = false -> Good cfg s -> pool_ok cfg (abs_state s) ->
+    dom_op cfg (s_arrs s) (OReextent r x None) -> val_dom cfg (OReextent r x None) ->
+    step cfg (OReextent r x None) s = Ok tt s' -> bx_eq x (fst (vget (abs_state s) r)) = false ->
+    in_bx (norm_bx x) idx = true -> in_bx (fst (vget (abs_state s) r)) idx = false ->
+    nth (Z.to_nat (rowmajor (norm_bx x) idx)) (snd (vget (abs_state s') r)) 0 = 0.
+Proof. exact reextent_new_value_initialised. Qed.
+Print Assumptions C06_reextent_new_elements_value_initialised.
+
+Theorem C06_reshape_flat_values :
+  forall cfg, (1 <= c_rank cfg)%nat -> forall r x s s', Good cfg s -> pool_ok cfg (abs_state s) ->
+    dom_op cfg (s_arrs s) (OReshape r x) -> val_dom cfg (OReshape r x) -> step cfg (OReshape r x) s = Ok tt s' ->
+    vget (abs_state s') r = (norm_bx x, snd (vget (abs_state s) r)).
+Proof. exact reshape_flat_values. Qed.
+Print Assumptions C06_reshape_flat_values.
+
+(* assign(first,last) / = {nested list}: exactly the requested contents; the extensions are kept when the shape matches,
+   the zero-based ones of the range otherwise *)
+Theorem C06_assign_contents :
+  forall cfg, (1 <= c_rank cfg)%nat -> forall r w s s', Good cfg s -> pool_ok cfg (abs_state s) ->
+    dom_op cfg (s_arrs s) (OAssignRange r w) -> val_dom cfg (OAssignRange r w) -> step cfg (OAssignRange r w) s = Ok tt s' ->
+    snd (vget (abs_state s') r) = rw_vals w /\
+    (fst (vget (abs_state s') r) = fst (vget (abs_state s) r) \/ fst (vget (abs_state s') r) = norm_bx (rows_exts w)).
+Proof. exact assign_range_contents. Qed.
+Print Assumptions C06_assign_contents.
+
+Theorem C06_assign_fill_contents :
+  forall cfg, (1 <= c_rank cfg)%nat -> forall r x v s s', Good cfg s -> pool_ok cfg (abs_state s) ->
+    dom_op cfg (s_arrs s) (OAssignFill r x v) -> val_dom cfg (OAssignFill r x v) -> step cfg (OAssignFill r x v) s = Ok tt s' ->
+    snd (vget (abs_state s') r) = repeat v (Z.to_nat (bnumel x)).
+Proof. exact assign_fill_contents. Qed.
+Print Assumptions C06_assign_fill_contents.
